@@ -1,10 +1,31 @@
 import AmrK.MenuR
 import AmrK.Menu
+import AmrK.ExtremaProofs
 /-! # C18 — header-only tools report what the full reader holds -/
 namespace C18
 
 /-- **The (repaired) two-column min/max table shows every field exactly once**, for every field count -/
 theorem table_covers (n i : Nat) (hi : i < n) : (MenuR.shown n).count (some i) = 1 := MenuR.shown_covers n i hi
+
+/-- **the all-level entries of the min/max table are the extrema over the per-box tables of every box of
+    every level**: the reduction of the per-level reductions (`np.min([… .min() for lv …])`) equals the
+    reduction over all boxes, with numpy's semantics (NaN absorbing, ±inf ordinary extreme values) -/
+theorem extrema_over_all_levels (levels : List (List Extrema.V)) :
+    Extrema.overLevels Extrema.vmin levels = Extrema.reduce Extrema.vmin levels.flatten ∧
+    Extrema.overLevels Extrema.vmax levels = Extrema.reduce Extrema.vmax levels.flatten :=
+  ⟨Extrema.min_over_levels levels, Extrema.max_over_levels levels⟩
+
+/-- a NaN in any per-box entry makes the table entry NaN (it is not dropped by the reduction) -/
+theorem nan_is_shown (l : List Extrema.V) (h : Extrema.V.nan ∈ l) :
+    Extrema.reduce Extrema.vmin l = some .nan ∧ Extrema.reduce Extrema.vmax l = some .nan :=
+  ⟨Extrema.reduce_nan _ (fun _ => rfl) (fun x => by cases x <;> rfl) l h,
+   Extrema.reduce_nan _ (fun _ => rfl) (fun x => by cases x <;> rfl) l h⟩
+
+/-- non-vacuity: three levels, a NaN on the second one; the finest level alone has finite extrema -/
+example :
+    Extrema.overLevels Extrema.vmin [[.fin 1, .fin (-2)], [.fin 0, .nan], [.fin 5, .ninf]] = some .nan ∧
+    Extrema.finest Extrema.vmin [[.fin 1, .fin (-2)], [.fin 0, .nan], [.fin 5, .ninf]] = some .ninf ∧
+    Extrema.finest Extrema.vmax [[.fin 1, .fin (-2)], [.fin 0, .nan], [.fin 5, .ninf]] = some (.fin 5) := by decide +kernel
 
 /-- the pinned layout (`not len//2` as oddness test) drops the last of three fields
     (checked record of the repaired defect) -/
